@@ -4,7 +4,7 @@
 EXTENDS DbSessionDef, Judge
 
 Clauses(r) ==
-  << <<"known-commands", \A i \in DOMAIN r.steps : r.steps[i].cmd \in Cmds>>,
+  << <<"known-commands", \A i \in DOMAIN r.steps : r.steps[i].cmd \in Cmds \cup ExtraCmds>>,
      <<"database-files-and-listing-unchanged-after-every-step", \A i \in DOMAIN r.steps : r.steps[i].unchanged>>,
      <<"wal-companions-only-while-a-session-is-open", \A i \in DOMAIN r.steps :
           r.steps[i].sidecar => SessionOpen([j \in DOMAIN r.steps |-> r.steps[j].cmd], i)>>,
